@@ -184,8 +184,8 @@ CLAIMED = {
              "random parameters over all region kinds (end values, guard-cell continuation, end gradients, doubled resolution, translation validation at 1e-11 L), _checkMonotonic on crafted "
              "functions; corpus grids: poloidal order, radial segments share the separatrix contour, end points under redistribution, ny doubling. The normalisation N_norm = N_norm_prefactor*ny_total is REGENERATED from all four sites (getSfuncFixedSpacing sqrt / monotonic, combineSfuncs, getSfuncFixedPerpSpacing) and proved identical; region-level oracles on real regions with N_norm_prefactor 0.5/1/2: wrapper = constructor with that N_norm, end gradients of fixed / perpendicular / combined functions scale exactly like 1/prefactor; the blending ranges of combineSfuncs depend on the *_range_inner options only inside, *_range_outer only outside the separatrix, at both ends of a region. "
              "Spacing by perpendicular distance: FineContour.interpSSperp is modelled (theories/Model_Sperp.v: projection on the unit perpendicular, the two loops that reflect the rest of the list whenever an increment is negative, total, linear interpolation s(s_perp) with extrapolation) and run bit for bit (PrimFloat) against the real method; theorems: the loop yields the running sums of the ABSOLUTE increments for lists of any length, every increment keeps its size, and after both loops the perpendicular distance is non-decreasing along the whole contour and unchanged at startInd, whatever the shape of the contour and whichever way the vector points; where it is strictly increasing the spacing function s(s_perp) is end-point exact and non-decreasing.",
-        note="Trusted: Coq kernel + Reals/Coquelicot axioms; translator translate/spacing.py (validated each run); brentq (contract); interior monotonicity of the sqrt form is NOT a theorem "
-             "(false for some parameters) and is left to the run-time guards, whose call sites are fingerprinted and which are exercised on the real object; the hand model of interpSSperp (bit-exact correspondence); equal consecutive perpendicular distances (a zero increment) make s(s_perp) divide by zero: not excluded by the code, not reached on the corpus.",
+        note="Trusted: Coq kernel + Reals/Coquelicot axioms; translator translate/spacing.py (validated each run); brentq (contract); interior monotonicity of the sqrt form is a theorem under an explicit sufficient condition only "
+             "(C10_sqrt_form_decomposition / C10_sqrt_form_increases / C10_sqrt_form_increases_into_guard_cells: sqrt terms + the monotonic cubic for reduced length and end gradients; false for some parameters outside it) and is otherwise left to the run-time guards, whose call sites are fingerprinted and which are exercised on the real object; the hand model of interpSSperp (bit-exact correspondence); equal consecutive perpendicular distances (a zero increment) make s(s_perp) divide by zero: not excluded by the code, not reached on the corpus.",
         technique="Coq proof (Coquelicot) on translated closed forms + differential oracle on the real constructors + grid oracle", design="6/C10"),
     "C19": dict(
         text="Coq theorems: (R, Coquelicot) the matrix find_critical inverts is the Jacobian of the residual (Br, Bz) (REGENERATED expressions) and an accepted point has |grad psi|^2 < "
